@@ -449,6 +449,8 @@ def cli_sample(ctx, jobs, built):
         bld = os.path.join(scratch, 'cli%d-build' % gi)
         os.makedirs(src)
         mb = ["project('c14', meson_version : '>=1.3.0')"]
+        if any(k == 'pkg' for k, _, _, _ in g):
+            mb.append("cm = import('cmake')")
         for j, (kind, fmt, d, payload) in enumerate(g):
             mb.append('d%d = configuration_data()' % j)
             for k, v, desc in d:
@@ -460,6 +462,13 @@ def cli_sample(ctx, jobs, built):
                     f.write(payload)
                 mb.append("configure_file(input : 'in%d.txt', output : 'out%d.txt', configuration : d%d, format : %s)"
                           % (j, j, j, meson_str(fmt)))
+            elif kind == 'pkg':
+                # another caller of the modelled code: the cmake module's configure_package_config_file()
+                # (modules/cmake.py: do_replacement(..., 'cmake@', ...) line by line)
+                with open(os.path.join(src, 'in%d.cmake.in' % j), 'w', encoding='utf-8', newline='') as f:
+                    f.write(payload)
+                mb.append("cm.configure_package_config_file(name : 'out%d', input : 'in%d.cmake.in', configuration : d%d, install_dir : 'lib')"
+                          % (j, j, j))
             else:
                 mac = (', macro_name : ' + meson_str(payload)) if payload else ''
                 mb.append("configure_file(output : 'out%d.txt', configuration : d%d, output_format : %s%s)" % (j, j, meson_str(fmt), mac))
@@ -468,7 +477,7 @@ def cli_sample(ctx, jobs, built):
         r = meson_cli(['setup', '--backend=none', bld, src], timeout=120)
         outs = []
         for j in range(len(g)):
-            p = os.path.join(bld, 'out%d.txt' % j)
+            p = os.path.join(bld, ('out%dConfig.cmake' if g[j][0] == 'pkg' else 'out%d.txt') % j)
             try:
                 with open(p, encoding='utf-8', newline='') as f:
                     outs.append(f.read())
@@ -476,6 +485,19 @@ def cli_sample(ctx, jobs, built):
                 outs.append(None)
         return r.returncode, (r.stdout + r.stderr)[-1500:], outs
     results = pmap(setup, range(len(groups)))
+    # a project that fails to configure: run its jobs one by one, so that only the culprit is reported
+    bad = [gi for gi, r in enumerate(results) if r[0] != 0 and len(groups[gi]) > 1]
+    if bad:
+        base = len(groups)
+        for gi in bad:
+            groups.extend([job] for job in groups[gi])      # single-job projects; setup() indexes into groups
+        res2 = pmap(setup, range(base, len(groups)))
+        k = 0
+        for gi in bad:
+            n = len(groups[gi])
+            results[gi] = ('per-job', res2[k:k + n])
+            k += n
+        del groups[base:]
     return groups, results
 
 
@@ -497,9 +519,13 @@ def replay(ctx):
             d.append((k, v if kind == 's' else int(v) if kind == 'i' else v == 'T', desc))
         groups, results = cli_sample(ctx, [(r.get('kind', 'conf'), fmt, d, payload)], False)
         print('configure_file():', results[0][0], repr(results[0][2][0]), results[0][1][-400:] if results[0][0] else '')
-        fn = 'conf' if r.get('kind', 'conf') == 'conf' else 'header'
-        args = [fmt, data, payload] if fn == 'conf' else [fmt, payload, data]
-        print('in process      :', repr(run_impl('c14.py', {'cases': [[fn, args]]})['results'][0]))
+        if r.get('kind') == 'pkg':
+            cs = [['repl', [fmt, data, l + '\n']] for l in payload.split('\n')[:-1]]
+            print('in process      :', repr(''.join(x.split(SEP1)[1] if x.startswith('OK') else x for x in run_impl('c14.py', {'cases': cs})['results'])))
+        else:
+            fn = 'conf' if r.get('kind', 'conf') == 'conf' else 'header'
+            args = [fmt, data, payload] if fn == 'conf' else [fmt, payload, data]
+            print('in process      :', repr(run_impl('c14.py', {'cases': [[fn, args]]})['results'][0]))
         ctx.cleanup()
     if 'oracle' in r:
         res = run_impl('c14.py', {'oracle': [r['oracle']]})
@@ -507,7 +533,7 @@ def replay(ctx):
     return 0
 
 
-KNOWN_CLASSES = ('define-line-framing', 'mesondefine-value-rescanned')
+KNOWN_CLASSES = ()
 
 
 def report_oracle_failure(ctx, f):
@@ -659,16 +685,43 @@ def run(ctx):
         if any(k == '' for k, _, _ in d):
             continue
         jobs.append(('header', c[1][0], d, c[1][1], r))
+    # cmake.configure_package_config_file(): templates of LF-terminated lines, cmake@ format, every line through do_replacement
+    pkg_cases, pkg_specs = [], []
+    for _ in range(40 if thorough else 8):
+        d = [e for e in gen_data(rng, cmake=True) if e[0] and not (isinstance(e[1], str) and any(ch in e[1] for ch in '\x0b\x0c\x1c\x85'))]
+        lines = []
+        for _ in range(rng.randint(1, 5)):
+            l = gen_line_cmake(rng, d) if rng.random() < 0.7 else gen_define_cmake(rng, d)
+            if not any(ch in l for ch in '\r\n\x0b\x0c\x1c\x85\x00') and '@PACKAGE_INIT@' not in l:
+                lines.append(l)
+        if lines:
+            pkg_specs.append((d, lines, len(pkg_cases)))
+            pkg_cases += [('repl', ['cmake@', enc_data(d), l + '\n']) for l in lines]
+    pkg_impl = run_impl('c14.py', {'cases': [list(c) for c in pkg_cases]})['results'] if pkg_cases else []
+    pkg_model = ctx.run_model(pkg_cases) if (built and pkg_cases) else pkg_impl
+    for c, ri, rm in zip(pkg_cases, pkg_impl, pkg_model):
+        ctx.count((c[0], tuple(c[1])), nontrivial=True)
+        if ri != rm:
+            ctx.disagreements.append({'case': [c[0], c[1]], 'implementation': ri, 'model': rm})
+    for d, lines, k0 in pkg_specs:
+        rs = pkg_impl[k0:k0 + len(lines)]
+        if all(r.startswith('OK') for r in rs):
+            jobs.append(('pkg', 'cmake@', d, ''.join(l + '\n' for l in lines), ''.join(r.split(SEP1)[1] for r in rs)))
     groups, results = cli_sample(ctx, [j[:4] for j in jobs], built)
     ncli, k, cli_bad = 0, 0, []
-    for g, (rc, log, outs) in zip(groups, results):
+    for g, res in zip(groups, results):
         for j, job in enumerate(g):
+            if res[0] == 'per-job':
+                rc, log, o1 = res[1][j]
+                outs = {j: o1[0]}
+            else:
+                rc, log, outs = res
             exp = jobs[k][4]; k += 1
             want = exp.split(SEP1)[1] if job[0] == 'conf' else exp
             ncli += 1
             ctx.count(('cli',) + tuple(map(str, job)), nontrivial=True)
             if rc != 0 or outs[j] != want:
-                case = ['configure_file', [job[1], enc_data(job[2]), job[3]]]
+                case = ['configure_file:' + job[0], [job[1], enc_data(job[2]), job[3]]]
                 ctx.disagreements.append({'case': case, 'cli_rc': rc, 'implementation': outs[j], 'in_process': want,
                                           'log': log[-600:] if rc else ''})
                 cli_bad.append((case, job[0], outs[j], want, rc))
@@ -703,7 +756,7 @@ def run(ctx):
     # segment list (the grammar is complete for the meson format) and ask the oracle about it
     for dg in ctx.disagreements[:60]:
         fn, args = dg['case']
-        if fn in ('conf', 'file', 'repl', 'configure_file'):
+        if fn in ('conf', 'file', 'repl', 'configure_file:conf'):
             fmt, data, text = args
             lines = []
             for ln in (re.findall(r'[^\r\n]*(?:\r\n|\r|\n)|[^\r\n]+$', text) if fn != 'repl' else [text]):
@@ -725,7 +778,7 @@ def run(ctx):
                         break
                     lines.append(['S', segs, eol])
             if lines:
-                via = 'file' if fn in ('file', 'configure_file') else 'str'
+                via = 'file' if fn in ('file', 'configure_file:conf') else 'str'
                 items.append({'o': 'template', 'fmt': fmt, 'data': data, 'lines': lines, 'via': via})
                 for l in lines:      # and every line on its own
                     items.append({'o': 'template', 'fmt': fmt, 'data': data, 'lines': [l], 'via': via})
@@ -790,8 +843,9 @@ def run(ctx):
                  'extraction with ExtrOcamlBasic directives only + OCaml + extract/driver.ml (cross-checked in-kernel on a 300-case sample each run)',
                  'harness/check_C14.py generators and harness/impl/c14.py adapter, canonicaliser and oracle',
                  'model covers universal.py:1460-1832 (do_replacement_meson via a hand-written scanner for the regex of get_variable_regex, '
-                 'do_replacement_cmake, do_define_*, do_conf_str_*, readlines/writelines of do_conf_file, _dump_c_header c/nasm); the cmake '
-                 'parts are modelled with pending/C14-cmake-splice-advance.diff and pending/C14-cmakedefine-indent.diff applied',
+                 'do_replacement_cmake, do_define_*, do_conf_str_*, readlines/writelines of do_conf_file, _dump_c_header c/nasm), as '
+                 'fixed by the C14 fix commits in /repo and by pending/C14-mesondefine-value-rescanned.diff and '
+                 'pending/C14-define-line-eol.diff; callers covered end to end: configure_file() and cmake.configure_package_config_file()',
                  'not modelled: file encodings other than UTF-8, replace_if_different (C06), FeatureNew notices, output_format json, '
                  'non str/int/bool values'],
         assumptions=['Print Assumptions: all property theorems closed under the global context (no axioms)',
